@@ -308,3 +308,24 @@ def prune_replay(inputs, clause):
 
 
 prune.replay = prune_replay
+
+
+# ------------------------------------------------------------------------------ HandleLimiter.__init__: per-instance state
+fresh_state = Contract(
+    PROP, FH + '::HandleLimiter', name='HandleLimiter.__init__[instances share no state]',
+    harness='''
+a = HandleLimiter()
+b = HandleLimiter(maxHandles=3)
+a.seen.add('x.fastq.gz')
+a.openHandles['x.fastq.gz'] = {}
+return (a, b)
+''',
+    params={},
+    ensures={
+        'a_new_limiter_has_seen_no_file_and_holds_no_handle': 'len(result[1].seen) == 0 and len(result[1].openHandles) == 0',
+        'state_is_per_instance': '(result[0].seen is not result[1].seen) and (result[0].openHandles is not result[1].openHandles)',
+        'limits_as_given': 'result[1].maxHandles == 3 and result[0].maxHandles == 32 and result[0].pruneIntervalCounter == 0',
+    },
+    raises={},
+)
+UNITS.append(fresh_state)
